@@ -1942,3 +1942,10 @@ mod tests {
         );
     }
 }
+
+/// Verification harness with access to the private DZKP batch types (`ipa-verif` feature only).
+#[cfg(all(test, feature = "ipa-verif"))]
+#[allow(clippy::all, clippy::pedantic, dead_code, unused_imports)]
+pub(crate) mod verif_dzkp {
+    include!(concat!(env!("IPA_VERIF_DIR"), "/harness/dzkp.rs"));
+}
